@@ -74,6 +74,7 @@ def demo(wt, d):
 
 def evaluate(d, checks=None, tier="quick", seeds=(0,), keep=False,
              fast=False):
+    d = os.path.abspath(d)
     meta = {}
     mf = os.path.join(d, "meta.json")
     if os.path.exists(mf):
